@@ -5,6 +5,7 @@ R14.1  the discriminated path is exact: a present discriminator with a mapped va
        `property in data` (a null discriminator is a value, not absence)
 R14.2  first-success loops are lossless only if extra keys are rejected                      [finding on the pinned tree]
 R14.3  Union[...] is rendered in spec order with order-preserving de-duplication
+R14.5  the generated get_mapping() has one entry per discriminator value (written from the spec's mapping itself)
 R14.4  discriminated aliases keep their metadata for every Union spelling the type service can produce
 """
 from __future__ import annotations
@@ -146,6 +147,8 @@ def run(repo: Repo, rep: Report, tier: str) -> None:
             rep.violation("R14.3", sub, f"{fn.fq}|order|ordered={ordered}|set={uses_set}|spec={spec_order}",
                           "Union variants are not rendered in spec order with order-preserving de-duplication: first-success decoding then depends on hashing/sorting", fn.loc())
 
+    _mapping_entries_rule(repo, rep)
+
     # ---------------------------------------------------------------- R14.4 alias keeps discriminator metadata
     ra = repo.func("core.writers.python_construct_renderer:PythonConstructRenderer.render_alias")
     AL = Locals(ra.node)
@@ -171,6 +174,34 @@ def run(repo: Repo, rep: Report, tier: str) -> None:
             rep.violation("R14.4", sub, f"{ra.fq}|metadata-condition|{len(extra)}",
                           f"discriminator metadata is attached only under the extra condition(s) {extra}: e.g. a nullable discriminated union "
                           "(`Union[A, B] | None`) silently falls back to first-success decoding", ra.loc(t))
+
+
+def _mapping_entries_rule(repo: Repo, rep: Report) -> None:
+    """R14.5: the generated get_mapping() has one entry per discriminator *value*: the loop that writes the `value: Class` entries walks the
+    spec's mapping itself.  Re-keying it (e.g. by target schema, to avoid duplicate imports) silently drops all but one value of a schema
+    that several values select."""
+    ra = repo.func("core.writers.python_construct_renderer:PythonConstructRenderer.render_alias")
+    L = Locals(ra.node)
+    n_loops = 0
+    for lp in [n for n in own_nodes(ra.node) if isinstance(n, ast.For)]:
+        entry_writes = [c for c in calls_in(lp) if isinstance(c.func, ast.Attribute) and c.func.attr == "write_line" and c.args and isinstance(c.args[0], ast.JoinedStr)
+                        and any(isinstance(v, ast.Constant) and isinstance(v.value, str) and v.value.strip().startswith(":") for v in c.args[0].values)]
+        if not entry_writes:
+            continue
+        n_loops += 1
+        it = L.inline(lp.iter, stop=tuple(L.params))
+        while isinstance(it, ast.Call) and dotted(it.func) in ("sorted", "list", "tuple") and it.args:
+            it = it.args[0]
+        direct = isinstance(it, ast.Call) and isinstance(it.func, ast.Attribute) and it.func.attr == "items" and isinstance(it.func.value, ast.Attribute) \
+            and it.func.value.attr == "mapping"
+        sub = f"{ra.module.relpath}:render_alias get_mapping() entries (loop #{n_loops})"
+        if direct:
+            rep.ok("R14.5", sub, "one `value: Class` entry per item of the spec's discriminator mapping", ra.loc(lp))
+        else:
+            rep.violation("R14.5", sub, f"{ra.fq}|mapping-rekeyed",
+                          f"the entries are written from `{norm(it)[:70]}`, not from the discriminator mapping itself: when two values select one schema only one of "
+                          "them is emitted and payloads carrying the other are rejected as unknown", ra.loc(lp))
+    rep.require(n_loops >= 1, "R14.5: the loop writing the get_mapping() entries was not found in render_alias (anchor)")
 
 
 def _ancestors(n: ast.AST):
